@@ -73,7 +73,9 @@ def indexing(S, kernel, n1, n2, d, batch, alphabet):
             exprs = list(itertools.product(alpha, repeat=2))
             if bs:
                 exprs = [(b,) + e for b in (0, -1, slice(None), [1, 0]) for e in exprs[:: 3]] + [(0,), (slice(None), 1)]
+            pc_mark = len(CTX.pc)
             for e in exprs:
+                del CTX.pc[pc_mark:]  # path conditions of one index expression do not constrain the next
                 idx = tuple(_mk(i) for i in e)
                 lab = "K[%s]" % ", ".join(str(i) for i in e)
                 try:
